@@ -701,3 +701,36 @@ fn g2_sort_flag_rule() {
     kani::cover!(c1_zero && want_flag, "tie-break on c0 decides and the flag is set");
 }
 }
+
+// the CHECKED G2 decoders on the flag byte alone (everything else zero, square root fixed): an encoding the unchecked decoder accepts --
+// with either value of the sort flag, infinity included -- is accepted by the checked one exactly when the subgroup oracle says so
+common_stubs! { 98,
+fn g2_compressed_checked_b0() {
+    let b0: u8 = kani::any();
+    unsafe {
+        INSUB = kani::any();
+        SQRT_SOME = kani::any();
+        SQRT_Y2 = [[0u64; 6]; 2];
+        SQRT_Y2[0][0] = 5;
+    }
+    let mut enc = G2Compressed::empty();
+    enc.as_mut()[0] = b0;
+    let sc = if b0 & 0x80 == 0 {
+        Cat::Compression
+    } else if b0 & 0x40 != 0 {
+        if b0 & 0x3f == 0 { Cat::OkInf } else { Cat::Information }
+    } else if b0 & 0x1f > 0x1a {
+        Cat::Coordinate
+    } else if unsafe { !SQRT_SOME } {
+        Cat::NotOnCurve
+    } else {
+        Cat::OkPoint
+    };
+    let want = if (sc == Cat::OkInf || sc == Cat::OkPoint) && unsafe { !INSUB } { Cat::NotInSubgroup } else { sc };
+    let chk = enc.into_affine();
+    let cinf = match &chk { Ok(q) => q.is_zero(), _ => false };
+    assert!(cat(&chk, cinf) == want);
+    kani::cover!(want == Cat::NotInSubgroup && b0 & 0x20 != 0, "rejected by the subgroup oracle with the sort flag set");
+    std::mem::forget(chk);
+}
+}
